@@ -48,6 +48,9 @@ ANN = {
     "b-list": ("list[int]", {"s": "list[int]"}),
     "union": ("int | None", {"s": "int | None"}),
     "t-call": ("typing.Callable[[int], str]", {"s": "typing.Callable[[int], str]"}),
+    # annotations that cannot be hashed (metadata held in a dict / a list)
+    "annot-dict": ("typing.Annotated[int, {'ge': 0, 'le': 65535}]", {"s": "typing.Annotated[int, {'ge': 0, 'le': 65535}]"}),
+    "annot-list": ("typing.Annotated[str, ['a', 'b']]", {"s": "typing.Annotated[str, ['a', 'b']]"}),
 }
 
 
@@ -59,7 +62,10 @@ def _factory():
 
 LocalPoint = _factory()
 ANN["local"] = ("LocalPoint", {"n": [__name__, "LocalPoint"]})
-NAMES = ["a", "b", "c", "x", "y", "value", "name", "count", "flag", "data", "opts", "level", "mode", "host", "port", "path", "items", "extra"]
+NAMES = ["a", "b", "c", "x", "y", "value", "name", "count", "flag", "data", "opts", "level", "mode", "host", "port", "path", "items", "extra",
+         "größe", "名前", "démarrer", "x1"]          # identifiers are not limited to ASCII
+HELPS = [None, None, "one line", "First line of the help text,\nwrapped over a second line.\n\nA second paragraph: more = detail", "ends with a colon:\nthen # a hash",
+         "triple \"\"\" quotes\nand a backslash \\"]
 
 
 def render_ty(t):
@@ -81,7 +87,11 @@ def typestr(t):
 # ---------------------------------------------------------------- generation
 
 def gen_leaf(rng):
-    return {"k": "leaf", "cls": rng.choice(sorted(LEAVES))}
+    f = {"k": "leaf", "cls": rng.choice(sorted(LEAVES))}
+    h = rng.choice(HELPS)
+    if h is not None:
+        f["help"] = h                # documentation of a field: never part of what a stub declares
+    return f
 
 
 def gen_fields(rng, depth, used_types, self_ok=True):
@@ -108,6 +118,8 @@ def gen_fields(rng, depth, used_types, self_ok=True):
             f = gen_ctype(rng, used_types)
         elif r < 0.80:
             f = {"k": "virtual", "setter": rng.random() < 0.4}
+            if rng.random() < 0.4:
+                f["help"] = rng.choice(HELPS[2:])
         else:
             f = {"k": "method", "sig": gen_sig(rng)}
         out.append([nm, f])
@@ -183,15 +195,16 @@ def build_field(f, env):
     k = f["k"]
     if k == "leaf":
         cls = getattr(cc, f["cls"], None) or getattr(core, f["cls"])
+        kw = {"help": f["help"]} if f.get("help") else {}
         if f["cls"] == "ApplicationModeField":
-            return cls(create_helpers=bool(f.get("helpers")))
+            return cls(create_helpers=bool(f.get("helpers")), **kw)
         if f["cls"] == "ChallengeField":
-            return cls("md5")
+            return cls("md5", **kw)
         if f["cls"] == "SecureField":
-            return cls(method="xor")
+            return cls(method="xor", **kw)
         if f["cls"] == "NumberField":
-            return cls(float)
-        return cls()
+            return cls(float, **kw)
+        return cls(**kw)
     if k == "list":
         it = f["item"]
         if it is None:
@@ -206,9 +219,10 @@ def build_field(f, env):
     if k == "ctype":
         return core.ConfigTypeField(build_ctype(f, env))
     if k == "virtual":
+        kw = {"help": f["help"]} if f.get("help") else {}
         if f.get("setter"):
-            return cc.VirtualField(lambda cfg: 1, setter=lambda cfg, v: None)
-        return cc.VirtualField(lambda cfg: 1)
+            return cc.VirtualField(lambda cfg: 1, setter=lambda cfg, v: None, **kw)
+        return cc.VirtualField(lambda cfg: 1, **kw)
     if k == "method":
         ns = dict(env["ns"])
         exec(sig_source("fn", f["sig"]), ns)
